@@ -42,44 +42,7 @@ func runC12(c *eng.Ctx) {
 	c.Rule("ERRFLOW", "index.metricMetaDatabase{empty match is not an error}", func() { emptyMatchIsNotAnError(c) })
 
 	// ---- 1. one decrement per response, one increment pair per target ----------------------------------------------------
-	c.Rule("PASS", mcT+".handleResponse{expectResults--}", func() {
-		for _, fnKey := range []string{mcT + ".handleResponse", "query/context.MetadataContext.handleResponse", "query/context.MetadataContext.HandleResponse"} {
-			f := p.Func(fnKey)
-			if f == nil {
-				continue
-			}
-			decs := p.Sites(f, eng.StoreField(btcT+".expectResults"))
-			if len(decs) == 0 {
-				continue
-			}
-			ls := p.Locks(f, nil)
-			for i, d := range decs {
-				v := d.Instr.(*ssa.Store).Val
-				c.Check(strings.HasSuffix(p.Desc(v), ".expectResults-1)"), fmt.Sprintf("%s:by-one[%d]", fnKey, i), d.Instr, f, "a response lowers the expected counter by exactly one", "stores "+p.Desc(v))
-				_, twice := eng.Reaches(f, d.Instr, decs, nil)
-				c.Check(!twice, fmt.Sprintf("%s:once[%d]", fnKey, i), d.Instr, f, "at most one decrement per response", "")
-				c.Check(ls.At(d.Instr).HasField(btcMu, true), fmt.Sprintf("%s:locked[%d]", fnKey, i), d.Instr, f, "the counter changes under the context mutex", "")
-			}
-			_, skip := eng.PathExists(eng.PathQuery{Fn: f, Target: func(in ssa.Instruction) bool { _, ok := in.(*ssa.Return); return ok && in.Block() != f.Recover },
-				Blocked: func(in ssa.Instruction) bool { return instrIn(in, decs) }})
-			c.Check(!skip, fnKey+":every-path", nil, f, "every path of response handling (including the error and ignore exits) decrements the expected counter", "a path returns without the decrement")
-		}
-		ar := c.Fn(btcT + ".addRequests")
-		inc := c.One(ar, eng.StoreField(btcT+".expectResults"), "expectResults++")
-		tol := c.One(ar, eng.StoreField(btcT+".tolerantNotFounds"), "tolerantNotFounds++")
-		c.Check(inc.Instr.Block() == tol.Instr.Block(), "one-pair-per-target", tol.Instr, ar, "each target adds one expectation and one tolerance in the same loop iteration", "")
-		c.Check(strings.HasSuffix(p.Desc(inc.Instr.(*ssa.Store).Val), ".expectResults+1)") && strings.HasSuffix(p.Desc(tol.Instr.(*ssa.Store).Val), ".tolerantNotFounds+1)"), "by-one", inc.Instr, ar, "both grow by one", "")
-		conds, _ := eng.GuardingConds(ar, inc.Instr)
-		okLoop := false
-		for _, cd := range conds {
-			if strings.Contains(p.Desc(cd), ".Targets") {
-				okLoop = true
-			}
-		}
-		c.Check(okLoop, "per-target", inc.Instr, ar, "the pair is added once per target of the physical plan", "")
-		ls := p.Locks(ar, nil)
-		c.Check(ls.At(inc.Instr).HasField(btcMu, true), "add-locked", inc.Instr, ar, "expectations are registered under the mutex", "")
-	})
+	c.Rule("PASS", mcT+".handleResponse{expectResults--}", func() { expectResultsCounting(c) })
 
 	// ---- 2. not-found tolerance -----------------------------------------------------------------------------------------------
 	c.Rule("GUARD", mcT+".checkError{not-found tolerance}", func() {
@@ -622,4 +585,45 @@ func groupingTaskPairing(c *eng.Ctx) {
 		c.Check(n == 1, "forked-once:"+t, nil, ct, "exactly one fork per stage object", fmt.Sprintf("%d fork sites", n))
 	}
 	owner(c, "call of ForkGroupingTask", fork, allowed, len(allowed))
+}
+
+func expectResultsCounting(c *eng.Ctx) {
+	p := c.P
+	_ = p
+	for _, fnKey := range []string{mcT + ".handleResponse", "query/context.MetadataContext.handleResponse", "query/context.MetadataContext.HandleResponse"} {
+		f := p.Func(fnKey)
+		if f == nil {
+			continue
+		}
+		decs := p.Sites(f, eng.StoreField(btcT+".expectResults"))
+		if len(decs) == 0 {
+			continue
+		}
+		ls := p.Locks(f, nil)
+		for i, d := range decs {
+			v := d.Instr.(*ssa.Store).Val
+			c.Check(strings.HasSuffix(p.Desc(v), ".expectResults-1)"), fmt.Sprintf("%s:by-one[%d]", fnKey, i), d.Instr, f, "a response lowers the expected counter by exactly one", "stores "+p.Desc(v))
+			_, twice := eng.Reaches(f, d.Instr, decs, nil)
+			c.Check(!twice, fmt.Sprintf("%s:once[%d]", fnKey, i), d.Instr, f, "at most one decrement per response", "")
+			c.Check(ls.At(d.Instr).HasField(btcMu, true), fmt.Sprintf("%s:locked[%d]", fnKey, i), d.Instr, f, "the counter changes under the context mutex", "")
+		}
+		_, skip := eng.PathExists(eng.PathQuery{Fn: f, Target: func(in ssa.Instruction) bool { _, ok := in.(*ssa.Return); return ok && in.Block() != f.Recover },
+			Blocked: func(in ssa.Instruction) bool { return instrIn(in, decs) }})
+		c.Check(!skip, fnKey+":every-path", nil, f, "every path of response handling (including the error and ignore exits) decrements the expected counter", "a path returns without the decrement")
+	}
+	ar := c.Fn(btcT + ".addRequests")
+	inc := c.One(ar, eng.StoreField(btcT+".expectResults"), "expectResults++")
+	tol := c.One(ar, eng.StoreField(btcT+".tolerantNotFounds"), "tolerantNotFounds++")
+	c.Check(inc.Instr.Block() == tol.Instr.Block(), "one-pair-per-target", tol.Instr, ar, "each target adds one expectation and one tolerance in the same loop iteration", "")
+	c.Check(strings.HasSuffix(p.Desc(inc.Instr.(*ssa.Store).Val), ".expectResults+1)") && strings.HasSuffix(p.Desc(tol.Instr.(*ssa.Store).Val), ".tolerantNotFounds+1)"), "by-one", inc.Instr, ar, "both grow by one", "")
+	conds, _ := eng.GuardingConds(ar, inc.Instr)
+	okLoop := false
+	for _, cd := range conds {
+		if strings.Contains(p.Desc(cd), ".Targets") {
+			okLoop = true
+		}
+	}
+	c.Check(okLoop, "per-target", inc.Instr, ar, "the pair is added once per target of the physical plan", "")
+	ls := p.Locks(ar, nil)
+	c.Check(ls.At(inc.Instr).HasField(btcMu, true), "add-locked", inc.Instr, ar, "expectations are registered under the mutex", "")
 }
